@@ -37,6 +37,7 @@ func runC06(c *Ctx) {
 	dispatchDoneLast(c)
 	dispatchOnce(c)
 	layoutAgreement(c)
+	genRound2(c)
 	c13Accounting(c)
 	c06FedDoneLast(c)
 }
